@@ -118,7 +118,7 @@ pub fn spawn<T: Send + 'static, F: FnOnce() -> T + Send + 'static>(f: F) -> Hand
         *slot2.lock().unwrap() = Some(r);
         let mut b = bt2.0.lock().unwrap();
         b.done[tid] = true;
-        match pick(&b) { Some(n) => b.cur = n, None => b.cur = 0 }
+        if is_cooperative() { b.cur = 0; } else { match pick(&b) { Some(n) => b.cur = n, None => b.cur = 0 } }
         bt2.1.notify_all();
     });
     Handle(tid, slot)
@@ -135,6 +135,7 @@ pub fn block_on_lock() {
     }
 }
 pub fn yield_now() {
+    if is_cooperative() { return; }
     let bt = baton(); let m = me();
     let mut b = bt.0.lock().unwrap();
     match pick(&b) {
@@ -152,3 +153,28 @@ pub fn join<T>(h: Handle<T>) -> T {
     { let mut b = bt.0.lock().unwrap(); b.waiting[m] = None; }
     let v = h.1.lock().unwrap().take().unwrap(); v
 }
+
+// ---- cooperative (non-preemptive) mode: handler threads run until they finish or sleep; the harness decides who runs next
+static COOP: Mutex<bool> = Mutex::new(false);
+pub fn set_cooperative(on: bool) { *COOP.lock().unwrap() = on; }
+pub fn is_cooperative() -> bool { *COOP.lock().unwrap() }
+/// create a thread that does not run until `resume` is called on its handle
+pub fn spawn_suspended<T: Send + 'static, F: FnOnce() -> T + Send + 'static>(f: F) -> Handle<T> { spawn(f) }
+/// run the thread of `h` until it suspends (sleeps) or finishes; true when it has finished
+pub fn resume<T>(h: &Handle<T>) -> bool {
+    let bt = baton(); let m = me();
+    let mut b = bt.0.lock().unwrap();
+    if b.done[h.0] { return true; }
+    b.cur = h.0; bt.1.notify_all();
+    while b.cur != m { b = bt.1.wait(b).unwrap(); }
+    b.done[h.0]
+}
+/// called by the sleep shim in cooperative mode: hand control back to the thread that resumed us (the harness)
+pub fn suspend() {
+    let bt = baton(); let m = me();
+    let mut b = bt.0.lock().unwrap();
+    b.cur = 0; bt.1.notify_all();
+    while b.cur != m { b = bt.1.wait(b).unwrap(); }
+}
+/// result of a finished thread
+pub fn take<T>(h: Handle<T>) -> T { let v = h.1.lock().unwrap().take().unwrap(); v }
